@@ -14,7 +14,7 @@ from ..common import (REPO, Report, cobs, cstr, clist, decide, load_findings, ru
 PROP = "C06"
 CONST_KINDS = ["cforall_pre", "cforall_eff"]       # finding D30: observed in cases of their own
 SITE_KINDS = ["fact", "goal", "fact2", "fluent", "fluent2", "cfact", "cfluent", "tfluent", "tfact",
-              "forall_pre", "forall_eff"]
+              "forall_pre", "forall_eff", "joint_eff"]
 
 
 # ------------------------------------------------------------------------------------------------ forests
@@ -205,6 +205,9 @@ def case_lit(c, res):
         sites = "(Some {| s_text := %s; s_objs := %s; s_obs := %s |})" % (cstr(c["domain_text"]), objs, obs)
     else:
         sites = "None"
+    if sites == "None" and c["names"] == all_names(c["groups"], c["trailing"]):
+        return "tc %s %s %s %s %s" % (cgroups(c["groups"]), clist([cstr(x) for x in c["trailing"]]), cobs(types),
+                                      cstr(table), cstr(edges))
     return ("{| c_groups := %s; c_trailing := %s; c_names := %s; c_types := %s; c_table := %s; c_edges := %s; "
             "c_sites := %s |}" % (cgroups(c["groups"]), clist([cstr(x) for x in c["trailing"]]),
                                   clist([cstr(x) for x in c["names"]]), cobs(types), cstr(table), cstr(edges), sites))
@@ -451,8 +454,9 @@ def run(args):
     for c, res in zip(cases, results):
         records.append({"lit": case_lit(c, res), "input": {"case": c, "implementation": res},
                         "nontrivial": nontrivial(c), "witness_of": c.get("witness_of"), "klass": c.get("klass")})
-    verdicts, info = run_case_shards(PROP, "Corr.C06", [r["lit"] for r in records], shard_size=300,
-                                     max_bytes=110_000)
+    # about 12 shards or more (parallelism without paying the library load too often), at most 700 cases / 110 kB of literals per shard (parse time)
+    verdicts, info = run_case_shards(PROP, "Corr.C06", [r["lit"] for r in records],
+                                     shard_size=max(40, min(700, -(-len(records) // 12))), max_bytes=110_000)
     _t_coq = _time.time() - _t0 - _t_impl
     decide(rep, PROP, "Corr.C06", records, verdicts, info, explain_expr="explain %s")
     cov = rep.coverage
@@ -483,7 +487,7 @@ def run(args):
                    "under %s of the lines; type names t1..t6 assigned canonically or shuffled.  Observed per case: Domain.types keys, "
                    "all-pairs is_sub_type, create_type_hierarchy_graph edges; for site cases (%s) all (object type, required type) pairs at: "
                    "ProblemParser init fact / goal fact / 2nd argument / fluent / constant arguments, TrajectoryParser fluent and fact, "
-                   "forall precondition (applicability on crafted states) and forall-when effect (successor).  Plus cyclic variants (must be "
+                   "forall precondition (applicability on crafted states), forall-when effect (successor) and the same effect under joint execution (multi_agent.common.apply_actions).  Plus cyclic variants (must be "
                    "rejected), two-parent variants (model agreement only), random forests with 5-10 types, the (:types) sections of the "
                    "repository's fixture domains.  Non-trivial: some type has a declared parent other than object (depth >= 2); distinct by input hash."
                    % (stats.get("forests", "-"),
